@@ -176,6 +176,7 @@ static std::vector<Plan> c18_scenarios(bool thorough) {
         p.ops.push_back(mkop(OP_QLT, 10, {M, br, 0, 12, 0x11, 0, 0}));
         p.ops.push_back(mkop(OP_QLT, 10, {M, br, 0, 13, 0x13, 0, 0}));
         p.ops.push_back(mkop(OP_QLT, 10, {M, br, 0, 14, 0x77, 0, 0}));
+        p.ops.push_back(mkop(OP_QUERY, 10, {M, br, 0, 16, 0})); // a Query while properties are cached
         if (s >= 6) p.ops.push_back(mkop(OP_FETCH, 10, {M, br, 0, 30, s % 2 ? 0x0E : 0x11, 0, 40})); // a whole fetch loop; the fault hits its first request
         if (s >= 8) p.ops.push_back(mkop(OP_CHARGE, 10, {M, 0, 0, 15}));
         p.ops.push_back(mkop(OP_FLOOD, 10, {2, 5000, 0, 0, 0}));
@@ -251,9 +252,7 @@ static void build_c18_variants(const std::string &tier) {
             }
             uint64_t na = rb.op_counts.count(i) ? rb.op_counts[i].first : 0, ns = rb.op_counts.count(i) ? rb.op_counts[i].second : 0;
             for (uint64_t k = 1; k <= na; k++) {
-                for (int n : {1, 2, 99}) {
-                    if (n == 2 && k == na) continue;
-                    if (n == 99 && k + 1 >= na) continue;
+                for (int n : {1, 2, 99}) { // n consecutive failures from the k-th allocation on: a failure path may allocate where the fault-free run does not (retries)
                     Plan v = base; v.ops[i].f.push_back({F_ALLOCFAIL, (int64_t)k, n}); g_c18_variants.push_back(v);
                 }
             }
